@@ -369,6 +369,42 @@ def gen_p2e(rng, cs):
     return [{k: (v if not isinstance(v, np.generic) else v.item()) for k, v in p.items()} for p in pts]
 
 
+def gen_restricted_case(rng, idx=0, p_clone=0.0, sched_ok=True):
+    """RandomSearcher(restrict_configurations=L): L sampled from the space, with copies of (some of) the imputed
+    points_to_evaluate, duplicates inside L, lists of length 1; both settings of allow_duplicates; driven until the
+    searcher says 'nothing left' twice (allow_duplicates=False) or for a few rounds through the list"""
+    finite = rng.random() < 0.5
+    space = gen_space(rng, finite=finite, small=finite and rng.random() < 0.5, misaligned=False)
+    cs = build_space(space)
+    p2e = gen_p2e(rng, cs)
+    try:
+        imputed = [_plain(c) for c in impute_points_to_evaluate(p2e, cs)]
+    except Exception:
+        imputed = []
+    s0 = RandomSearcher(dict(cs), metric=METRIC, points_to_evaluate=[], random_seed=rng.randrange(1000), allow_duplicates=True)
+    shape = ["one", "p2e-only", "mixed", "mixed", "mixed", "dups"][idx % 6]
+    n = 1 if shape == "one" else rng.randint(2, 8)
+    lst = [_plain(s0.get_config()) for _ in range(n)]
+    if shape == "one" and imputed and rng.random() < 0.5:
+        lst = [dict(imputed[0])]            # the only allowed configuration is an initial one
+    elif shape == "p2e-only" and imputed:
+        lst = [dict(c) for c in imputed]    # every allowed configuration is an initial one: the remainder starts empty
+    elif shape != "one":
+        for c in imputed:
+            if rng.random() < 0.6:
+                lst.insert(rng.randint(0, len(lst)), dict(c))
+    if shape == "dups":
+        # the same configuration listed two or three times (at most half of the list: see RULE)
+        for _ in range(rng.randint(1, max(1, len(lst) // 2))):
+            lst.insert(rng.randint(0, len(lst)), dict(rng.choice(lst)))
+    allow_dup = (idx // 6) % 2 == 1
+    return {"scenario": "searcher", "space": space, "kind": "random", "p2e": p2e,
+            "ctor": {"allow_duplicates": allow_dup, "random_seed": rng.randrange(1000), "shuffle": False, "num_samples": {},
+                     "debug_log": False, "restrict": lst},
+            "n_ops": 4 * (len(lst) + len(imputed)) + 12, "seed": rng.randrange(10 ** 9), "p_fail": rng.choice([0, 0.2, 0.4]),
+            "p_clone": p_clone, "sched": rng.choice([None, None, None, "fifo"]) if sched_ok else None, "max_resource_attr": False}
+
+
 # ---------------------------------------------------------------------------------
 # recording wrappers (harness side; nothing in /repo is changed)
 
@@ -389,6 +425,36 @@ class DrawRecorder:
     def take(self):
         d, self.draws = self.draws, []
         return d
+
+
+class IdxRecorder:
+    """proxy put in place of ONE searcher's `random_state` (harness side): records the values of
+    `randint`.  A RandomSearcher with `restrict_configurations` draws nothing else:
+    `pos = self.random_state.randint(low=0, high=len(self._restrict_configurations))`"""
+
+    def __init__(self, inner):
+        self._inner = inner
+        self.draws = []
+
+    def randint(self, *a, **kw):
+        v = self._inner.randint(*a, **kw)
+        if np.ndim(v) == 0:
+            self.draws.append(int(v))
+        return v
+
+    def take(self):
+        d, self.draws = self.draws, []
+        return d
+
+    def __getattr__(self, name):
+        return getattr(self._inner, name)
+
+
+def attach_restrict_recorders(s, caller):
+    """`caller`: the list object the harness passed as `restrict_configurations` (observed after every call)"""
+    s._caller = caller
+    s._irec = IdxRecorder(s.random_state)
+    s.random_state = s._irec
 
 
 class _ShuffleRecorder:
@@ -456,7 +522,12 @@ def make_searcher(kind, cs, ctor, p2e):
     """ctor: {"allow_duplicates", "random_seed", "shuffle", "num_samples", "debug_log"}"""
     kw = dict(metric=METRIC, points_to_evaluate=None if p2e is None else [dict(p) for p in p2e],
               random_seed=ctor.get("random_seed", 0), allow_duplicates=ctor.get("allow_duplicates", False))
-    if kind == "random":
+    if kind == "random" and ctor.get("restrict") is not None:
+        caller = [dict(c) for c in ctor["restrict"]]   # the caller's list object
+        s = RandomSearcher(dict(cs), debug_log=ctor.get("debug_log", False), restrict_configurations=caller, **kw)
+        s._rec = DrawRecorder(s._hp_ranges)
+        attach_restrict_recorders(s, caller)
+    elif kind == "random":
         s = RandomSearcher(dict(cs), debug_log=ctor.get("debug_log", False), **kw)
         s._rec = DrawRecorder(s._hp_ranges)
     else:
@@ -470,14 +541,25 @@ def header(kind, cs, ctor, p2e, sched=False):
          "p2e": None if p2e is None else [enc_config(p) for p in p2e],
          "hints": mid_hints(cs), "allow_duplicates": bool(ctor.get("allow_duplicates", False)),
          "max_retries": MAX_RETRIES, "debug_log": bool(ctor.get("debug_log", False))}
+    if kind == "random" and ctor.get("restrict") is not None:
+        h["restrict"] = [enc_config(c) for c in ctor["restrict"]]
     return h
 
 
 def searcher_state(kind, s):
     if kind == "random":
         cf = s._config_for_trial_id or {}
-        return {"n_p2e": len(s._points_to_evaluate), "excl": sorted(s._excl_list.excl_set),
-                "cfg_for": [[int(t), enc_config(c)] for t, c in cf.items()]}
+        out = {"n_p2e": len(s._points_to_evaluate), "excl": sorted(s._excl_list.excl_set),
+               "cfg_for": [[int(t), enc_config(c)] for t, c in cf.items()]}
+        if getattr(s, "_caller", None) is not None:
+            # restrict_configurations: the remaining list (None and [] are different states), the marked
+            # positions, and the list object of the caller
+            rc, rpos = s._restrict_configurations, s._rc_returned_pos
+            out["rc_kind"] = "none" if rc is None else "list"
+            out["rc"] = [enc_config(c) for c in (rc or [])]
+            out["rc_pos"] = sorted(int(p) for p in rpos) if rpos is not None else ("None" if rc is not None else [])
+            out["caller"] = [enc_config(c) for c in s._caller]
+        return out
     return {"n_p2e": len(s._points_to_evaluate), "next_index": int(s._next_index),
             "all_init": sorted(s._all_initial_configs.excl_set)}
 
@@ -489,7 +571,16 @@ def init_output(kind, cs, s):
     if kind == "grid":
         out["hp_keys"] = list(s.hp_keys)
         out["combos"] = [[enc_val(v) for v in t] for t in s.hp_values_combinations]
+    elif getattr(s, "_caller", None) is not None:
+        out.update(searcher_state(kind, s))
     return out
+
+
+def take_draws(kind, s):
+    """(configurations drawn by random_config, positions drawn by randint) since the last call"""
+    if kind != "random":
+        return [], []
+    return s._rec.take(), (s._irec.take() if getattr(s, "_irec", None) is not None else [])
 
 
 def clone_searcher(kind, cs, ctor, s, via="self"):
@@ -505,6 +596,8 @@ def clone_searcher(kind, cs, ctor, s, via="self"):
     new = tmpl.clone_from_state(state)
     if kind == "random":
         new._rec = DrawRecorder(new._hp_ranges)
+        if getattr(s, "_caller", None) is not None:
+            attach_restrict_recorders(new, s._caller)
     return new, state
 
 
@@ -542,6 +635,13 @@ def run_searcher_scenario(spec):
     events.append({"ev": "init", "init": [dict(c) for c in s._points_to_evaluate],
                    "grid": [tuple(t) for t in s.hp_values_combinations] if kind == "grid" else None,
                    "hp_keys": list(s.hp_keys) if kind == "grid" else None})
+    def note_caller(obj, when):
+        # the list object passed as restrict_configurations, as the caller sees it now
+        if getattr(obj, "_caller", None) is not None:
+            events.append({"ev": "caller-list", "when": when, "list": [dict(c) for c in obj._caller],
+                           "remaining": None if obj._restrict_configurations is None else [dict(c) for c in obj._restrict_configurations]})
+
+    note_caller(s, "init")
     sch = None
     if sched_kind:
         scs = dict(cs)
@@ -566,8 +666,12 @@ def run_searcher_scenario(spec):
     mrng = random.Random(spec["seed"] * 31 + 5)
 
     def record_get(cfg, draws, tid=None, full=None, override=None):
+        draws, idraws = draws
         st = searcher_state(kind, sch.searcher if sch else s)
         inp = {"draws": [enc_config(d) for d in draws]}
+        if getattr(sch.searcher if sch else s, "_caller", None) is not None:
+            inp["idraws"] = list(idraws)
+            draws = list(draws) + list(idraws)
         if sch:
             inp.update({"op": "suggest", "trial_id": tid})
             if override is not None:
@@ -579,10 +683,12 @@ def run_searcher_scenario(spec):
         out.update(st)
         lines.append((inp, out))
 
+    force_clone = False
     for _ in range(spec["n_ops"]):
         cur = sch.searcher if sch else s
         r = rng.random()
-        if r < spec.get("p_clone", 0) and not sch:
+        if (force_clone or r < spec.get("p_clone", 0)) and not sch:
+            force_clone = False
             via = rng.choice(["self", "template"])
             inp = {"op": "clone"}
             try:
@@ -596,6 +702,7 @@ def run_searcher_scenario(spec):
                 else list(state.get("all_initial_configs", {}).get("excl_set", []))
             inp["order"] = order
             s = new
+            note_caller(s, "clone")
             out = {"p2e": [enc_config(c) for c in s._points_to_evaluate]}
             if kind == "grid":
                 out["combos"] = [[enc_val(v) for v in t] for t in s.hp_values_combinations]
@@ -634,8 +741,7 @@ def run_searcher_scenario(spec):
             continue
         # ask for a configuration
         tid = next_tid
-        if kind == "random":
-            cur._rec.take()
+        take_draws(kind, cur)
         if sch:
             try:
                 sg = sch.suggest(tid)
@@ -643,10 +749,11 @@ def run_searcher_scenario(spec):
                 lines.append(({"op": "suggest", "trial_id": tid, "draws": []}, {"err": errname(e)}))
                 events.append({"ev": "suggest-error", "err": errname(e)})
                 break
-            draws = cur._rec.take() if kind == "random" else []
+            draws = take_draws(kind, cur)
+            note_caller(cur, "suggest")
             if sg is None:
                 record_get(None, draws, tid=tid, full=None)
-                events.append({"ev": "none"})
+                events.append({"ev": "none", "n_draws": len(draws[0]) + len(draws[1])})
                 none_seen += 1
                 if none_seen >= 2:
                     break
@@ -675,13 +782,16 @@ def run_searcher_scenario(spec):
                 lines.append(({"op": "get_config", "draws": []}, {"err": errname(e)}))
                 events.append({"ev": "suggest-error", "err": errname(e)})
                 break
-            draws = s._rec.take() if kind == "random" else []
+            draws = take_draws(kind, s)
+            note_caller(s, "get_config")
             record_get(cfg, draws)
             if cfg is None:
-                events.append({"ev": "none"})
+                events.append({"ev": "none", "n_draws": len(draws[0]) + len(draws[1])})
                 none_seen += 1
                 if none_seen >= 2:
                     break
+                # snapshot / restore of a searcher that has just said 'nothing left'
+                force_clone = bool(spec.get("clone_when_used_up"))
                 continue
             next_tid += 1
             ms = s._hp_ranges.config_to_match_string(cfg)
@@ -881,7 +991,7 @@ def run_gp_scenario(spec):
         sch = FIFOScheduler(dict(cs), **common)
     else:
         sch = HyperbandScheduler(dict(cs), resource_attr=RES, max_t=max_t, grace_period=1, reduction_factor=3,
-                                 type=spec["sched"].split("-")[1], **common)
+                                 type=spec["sched"].split("-")[1], searcher_data=spec.get("searcher_data", "rungs"), **common)
     lines, events = [], []
     from syne_tune.config_space import config_space_size
     hdr = {"stream": "searcher", "kind": "stateless", "space": model_space(cs)}
